@@ -114,7 +114,9 @@ def check(it, ns, out):
         pn = pn.split(":")[0]
         if pn == "formatid":
             o = ns.f["object_formatid"]
-            exp_s = z3.If(o.tag == T_NONE, yaml_ns(ytext), o.s)
+            # "omitted on the command line" is what selects the store's default namespace
+            absent = z3.Not(o.given) if getattr(o, "given", None) is not None else (o.tag == T_NONE)
+            exp_s = z3.If(absent, yaml_ns(ytext), o.s)
             got_ok, got_s = _as_str(av)
             ctx.oblige(f"main/{name}/arg:{pn}-is-option-or-default-namespace",
                        z3.And(got_ok, got_s == exp_s), props=P)
